@@ -162,33 +162,43 @@ lg = jnp.concatenate(tuple(jnp.where(m, d.logits, -jnp.inf) for d, m in zip(self
             s.ob("C16.4", f"{pol_cls}.__call__", False, "both key cases exist", loc, key="key-cases")
     # MLPActorCriticPolicy: the log-prob reported by action_and_value is that of the distribution sampled (C04.9 covers the sibling agreement)
     # ---------------------------------------------------------------- C16.5 epsilon-greedy
-    b = s.builder(inline=set())
+    # (mask / logits are looked through on both sides, so the comparison reads the same whether Categorical defines them itself or
+    # inherits them from a base class; what mask() does is C16.1's business)
+    b = s.builder(inline={"mask", "logits"})
     nz = Normalizer(b)
     loc = s.loc("AbstractQPolicy", "__call__")
     combos = set()
+    qbind = {"self": self_, "state": ("param", "state"), "observation": ("param", "observation"), "action_mask": ("param", "action_mask"),
+             "Categorical": ("global", P.cls("Categorical").qualname)}
+    want_gate = s.ref(b, "key is None or self.epsilon <= 0.0", {"key": ("param", "key"), "self": self_})
     for p in live(s.paths(b, "AbstractQPolicy", "__call__")):
-        masked = any(v for t, v in p.conds if t == ("cmp", "IsNot", ("param", "action_mask"), NONE))
-        g = [(t, v) for t, v in p.conds if isinstance(t, tuple) and t[0] == "boolop"]
-        if len(g) != 1:
-            raise AnalysisError("AbstractQPolicy.__call__: expected one composite greedy gate")
-        greedy = g[0][1]
+        masked = entails(nz, p.conds, ("cmp", "IsNot", ("param", "action_mask"), NONE))
+        greedy = entails(nz, p.conds, want_gate)
+        shown = "; ".join(f"{show(t_, maxlen=80)}={v_}" for t_, v_ in p.conds)
+        s.ob("C16.5", "AbstractQPolicy.__call__", masked is not None and greedy is not None,
+             "every path decides whether a mask was given and whether it is greedy (`key is None or epsilon <= 0`)", loc, key="greedy-gate", detail=shown,
+             necessary_for="without a key a Q policy acts greedily")
+        if masked is None or greedy is None:
+            continue
         combos.add((masked, greedy))
         tag = f"[mask={'given' if masked else 'None'}, {'greedy' if greedy else 'epsilon-greedy'}]"
-        want_gate = s.ref(b, "key is None or self.epsilon <= 0.0", {"key": ("param", "key"), "self": self_})
-        s.ob("C16.5", "AbstractQPolicy.__call__" + tag, nz.canon(g[0][0]) == nz.canon(want_gate), "greedy when `key is None or epsilon <= 0`", loc, key="greedy-gate",
-             detail=show(g[0][0], maxlen=120), necessary_for="without a key a Q policy acts greedily")
         act = p.ret[1][1] if isinstance(p.ret, tuple) and p.ret[0] == "tuple" and len(p.ret[1]) == 2 else None
         qv = ("call", ("attr", self_, "q_values"), (("param", "state"), ("param", "observation")), ())
-        base = [c for c in walk(act) if isinstance(c, tuple) and c and c[0] == "record" and c[1].endswith(".Categorical")]
-        okb = len(base) == 1 and fields(base[0]).get("arg:logits") == ("item", qv, 1)
+        base = [c for c in walk(act) if isinstance(c, tuple) and c and c[0] == "record" and c[1].endswith(".Categorical") and fields(c).get("arg:logits") == ("item", qv, 1)]
+        okb = len(base) >= 1
         s.ob("C16.5", "AbstractQPolicy.__call__" + tag, okb, "the action law is Categorical(logits = q_values(state, observation)[1])", loc, key="q-logits",
-             detail=show(base[0], maxlen=160) if base else "none")
+             detail=show(act or NONE, maxlen=200))
         if not okb:
             continue
-        dist = ("call", ("attr", base[0], "mask"), (("param", "action_mask"),), ()) if masked else base[0]
-        mode = ("call", ("attr", dist, "mode"), (), ())
+        D = s.ref(b, "Categorical(logits=self.q_values(state, observation)[1])" + (".mask(action_mask)" if masked else ""), qbind)
+        cD = nz.canon(D)
+
+        def on_law(c, meth, nargs):
+            return isinstance(c, tuple) and c and c[0] == "call" and isinstance(c[1], tuple) and c[1][0] == "attr" and c[1][2] == meth and len(c[2]) == nargs and not c[3] \
+                and nz.canon(c[1][1]) == cD
+
         if greedy:
-            s.ob("C16.5", "AbstractQPolicy.__call__" + tag, act == mode, "the greedy action is the mode of the (masked) law", loc, key="greedy-mode", detail=show(act, maxlen=200),
+            s.ob("C16.5", "AbstractQPolicy.__call__" + tag, on_law(act, "mode", 0), "the greedy action is the mode of the (masked) law", loc, key="greedy-mode", detail=show(act, maxlen=200),
                  necessary_for="masked actions are never chosen in deterministic mode")
         else:
             ok = isinstance(act, tuple) and act[0] == "ite"
@@ -200,8 +210,8 @@ lg = jnp.concatenate(tuple(jnp.where(m, d.logits, -jnp.inf) for d, m in zip(self
                               and isinstance(pred[3], tuple) and pred[3][0] == "call" and pred[3][1] == ("global", "jax.random.uniform"))
                 s.ob("C16.5", "AbstractQPolicy.__call__" + tag, okp, "exploration is taken under uniform(k) < epsilon", loc, key="explore-predicate", detail=show(pred, maxlen=160),
                      necessary_for="a Q policy departs from the greedy action with probability at most epsilon")
-                oks = isinstance(tb, tuple) and tb[0] == "call" and tb[1] == ("attr", dist, "sample") and len(tb[2]) == 1
-                s.ob("C16.5", "AbstractQPolicy.__call__" + tag, oks and fb == mode, "explore branch samples the (masked) law, otherwise its mode (branch order)", loc, key="explore-branches",
+                oks = on_law(tb, "sample", 1)
+                s.ob("C16.5", "AbstractQPolicy.__call__" + tag, oks and on_law(fb, "mode", 0), "explore branch samples the (masked) law, otherwise its mode (branch order)", loc, key="explore-branches",
                      detail=f"{show(tb, maxlen=140)} | {show(fb, maxlen=140)}", necessary_for="masked actions are never chosen in epsilon-greedy mode either")
                 if okp and oks:
                     ku = pred[2][2][0] if pred[1] == "Lt" else pred[3][2][0]
